@@ -43,6 +43,10 @@ func runC12(c *eng.Ctx, tier string) {
 	// R-C12-10: "a handle always yields a value": the entry behind a handle is
 	// never removed (the only removal is guarded by the handle registry: C19's rule)
 	includeOnly(c, "R-C12-10", func(sc *eng.Ctx) { runC19(sc, "quick") }, "R-C19-1")
+	// R-C12-11: "or that the start-up cache supplied for it": an entry taken
+	// over from the cache has a value (the validity gate: C13's rule), so a
+	// handle never dereferences a value-less entry
+	includeOnly(c, "R-C12-11", func(sc *eng.Ctx) { runC13(sc, "quick") }, "R-C13-6")
 	l := moduleLocks(c)
 	accs := storeAccesses(p)
 	// R-C12-1
